@@ -54,5 +54,10 @@ def surfaceDersA36R (pu pv : Nat) (Uu Uv : Nat → K) (su sv : Nat) (P : List (L
     List (List (List K)) :=
   surfaceDersA36 pu pv Uu Uv sv P (findSpanLinearR pu Uu su u) (findSpanLinearR pv Uv sv v) u v order
 
+/-- `SurfaceEvaluator2.derivatives` (A3.7 + A3.8 as coded, `surfaceDersA38`) on the span pair the repaired search finds -/
+def surfaceDersA38R (pu pv : Nat) (Uu Uv : Nat → K) (su sv : Nat) (P : List (List K)) (u v : K) (order : Nat) :
+    List (List (List K)) :=
+  surfaceDersA38 pu pv Uu Uv su sv P (findSpanLinearR pu Uu su u) (findSpanLinearR pv Uv sv v) u v order
+
 end
 end Geomdl
